@@ -33,7 +33,7 @@ fn main() {
 
 fn default_vectors(args: &Args) -> u64 {
     // 24 boundary vectors (every boundary value of every parameter slot), the rest seeded random
-    args.tier.pick(400, 2500)
+    args.tier.pick(1000, 10000)
 }
 
 fn vectors_of(args: &Args) -> u64 {
@@ -77,6 +77,8 @@ fn parent(args: &Args) {
                 "shorthand `ident` fields are plain variable reads: their evaluation is not observable and not counted; dotted shorthands are counted through Deref".into(),
                 "arguments of Span::record / record_all! are ordinary call arguments (always evaluated) and are not part of the evaluation-count clause".into(),
                 "raw-identifier names (r#type) are accepted under either spelling".into(),
+                "record_all! is judged for its documented use (all fields, declaration order); naming a subset is an observation only (VERIF_C10_STRICT_RECORD_ALL=1 makes it a verdict)".into(),
+                "forms the pinned macros do not parse (see fixup() in harness/gen/c10.py) are not generated; compile-time behaviour is not judged".into(),
             ],
             min_evals: n * (default_vectors(args) / 4) * NCFG,
             min_distinct: n * NCFG / 4,
@@ -575,7 +577,7 @@ fn second_corpus(args: &Args, out: &mut Out, extra: &mut Map<String, Value>) {
             "--seed",
             &args.seed.to_string(),
             "merged=1",
-            &format!("vectors={}", args.get_u64("vectors2", 400)),
+            &format!("vectors={}", args.get_u64("vectors2", 1000)),
             &format!("parts={}", args.get_u64("parts", 13)),
         ])
         .env("VERIF_ROOT", run::verif_root())
